@@ -190,17 +190,22 @@ def run_task(task):
             conc_mod.gamma = GammaProxy(real_gamma, cfg["inject"], gamma_log)
             captured = {}
             conc_calls = []
+            stale_starts = []
 
             def burnin_spy(*a, **k):
                 t = real_burnin(*a, **k)
                 captured["burnin_tree"] = t.copy()
                 return t
 
-            def update_spy(conc_sampler, tree, tree_dist):
-                # C13 call site: K and n counted from the graph by the monitor, compared with what sample() receives
+            def update_spy(conc_sampler, tree, tree_dist, *a, **k):
+                # C13 call site: K and n counted from the graph by the monitor, compared with what sample() receives;
+                # the step must start from the concentration value currently in force
                 before = len(conc_log)
-                real_update(conc_sampler, tree, tree_dist)
+                alpha_before = tree_dist.prior.alpha
+                real_update(conc_sampler, tree, tree_dist, *a, **k)
                 seen = conc_log[before] if len(conc_log) > before else None
+                if seen is not None and seen[0] != alpha_before and len(stale_starts) < 3:
+                    stale_starts.append({"passed_old_value": seen[0], "current_value": alpha_before})
                 K = tree.graph.num_nodes()
                 out_name = tree.outlier_node_name
                 n_in = sum(1 for _i, lab in tree.labels.items() if lab != out_name)
@@ -269,9 +274,19 @@ def run_task(task):
                                    dict(case, iters=iters, expected=expected))
                 part.count("runs_with_time_limit")
             part.count("trace_entries_checked", len(trace))
+            # every entry is restored first, the restored trees are examined afterwards (as a summary command that loads
+            # the whole trace does): restoring one entry must not disturb another
+            restored = []
+            for e in trace:
+                try:
+                    restored.append(Tree.from_dict(e["tree"]))
+                except Exception as ex:
+                    restored.append(ex)
             for ei, e in enumerate(trace):
                 try:
-                    t = Tree.from_dict(e["tree"])
+                    t = restored[ei]
+                    if isinstance(t, Exception):
+                        raise monitors.Broken("entry does not restore: %r" % (t,))
                     monitors.tree_wellformed(t, expect_idxs=list(range(n_data)))
                 except monitors.Broken as b:
                     part.violation("C19|recorded entry is not a well-formed tree over all data points: %s" % b.what,
@@ -300,6 +315,9 @@ def run_task(task):
             for df in density_fail:
                 part.violation("C13|a density evaluated after the concentration update does not use the current "
                                "concentration value (stale value stored in a particle)", dict(case, **df))
+            for st in stale_starts:
+                part.violation("C13|concentration update does not start from the concentration value currently in force "
+                               "(the value every density uses)", dict(case, **st))
             for ci, cc in enumerate(conc_calls):
                 part.count("concentration_updates_observed")
                 if cc["seen"] is None:
